@@ -29,7 +29,15 @@ RULE = (
     "model; k-mer, position, id, count, offset and matrix arrays, masks, sequence code arrays, argument lists and dicts) x "
     "every in-place mutation of the caller's object (each element, reverse, sort, zeros, clear/pop) after the call, plus "
     "zeroing every array the object returns: the complete observation of the object must not move, must equal that of a "
-    "twin built from private copies, and the call must leave its arguments as passed. A case is counted once; it is non-trivial when "
+    "twin built from private copies, and the call must leave its arguments as passed. size: every listed count around each "
+    "capacity / width switch (rows of a match result 1..4160 straddling every doubling of the buffer that starts at 1, "
+    "255/256/257 and 65535/65536/65537 entries per k-mer and references, every n_buckets 1..20 and 31..33 around n^k, every "
+    "default bucket count for 1..42 k-mers, k-mer alphabets around 2^32 and 2^63 k-mers, 255/256/257 symbols, windows "
+    "around 64 and 256 on three sequences of 700-1033 symbols). reuse: every ordered pair of the listed operations "
+    "(including refused calls) on one object, second result and final observation equal to those of a fresh object. "
+    "flavour: every site x every listed array flavour / numpy scalar type / empty piece, result equal to that of the "
+    "contiguous array of the documented dtype. order: every permutation of references, tables, selection pairs, dict keys "
+    "and rows, result equal as multiset. A case is counted once; it is non-trivial when "
     "the model's result set (triples / selected positions / similar k-mers) is non-empty and, for tables, at least "
     "one k-mer of the reference is stored."
 )
@@ -46,6 +54,10 @@ ASSUMPTIONS = [
     "different entry multiset (False)",
     "MincodeSelector: 'below the threshold' is exact rational comparison; a permuted value within float64 rounding "
     "of the threshold would be EITHER (none occurs in the enumerated space)",
+    "array flavours: memory layouts of an array of the documented dtype (strided, negative stride, column view, read-only, "
+    "ndarray subclass, Fortran / strided rows) must give the result of the contiguous array; other integer dtypes, lists, "
+    "tuples, ranges and non-integral numpy scalars are EITHER unless the documentation names them",
+    "k-mer alphabets with 2^63 or more k-mers (codes do not fit int64) are EITHER",
     "malformed inputs (k-mer codes outside [0, n^k), n_buckets <= 0, positions/ids outside uint32, wrong lengths "
     "and dtypes): a clean exception is demanded where the documentation names one or no model value exists",
 ]
@@ -723,6 +735,12 @@ def bounds(tier):
                       "mincode": sc["mincode"], "compression": sc["compression"], "permutations": list(PERMS)},
         "kmer_alphabet": {"(n, k, max length)": kalph_cfg(tier), "spacing_forms": list(FORMS), "code_dtypes": list(DTYPES)},
         "malformed_probes": "fixed list (see oor_probes), each in a forked child",
+        "size": size_cfg(tier),
+        "reuse": {"objects": sorted(reuse_objects(0)) if False else "tables (2 classes x continuous/spaced), 4 selectors x 3 permutations, "
+                  "3 permutations, 3 similarity rules, 2 k-mer alphabets, the module-level default bucket count; every ordered "
+                  "pair of their listed operations (28 for a table)"},
+        "flavour": {"layouts": list(LAYOUTS), "other_types": list(OTHER_TYPES), "numpy_scalars": list(SCALARS)},
+        "order": "all permutations of 3 references / 3 tables / 4 selection pairs / 3 dict keys x 3 rows; match_table argument swap",
         "alias": {"scenarios": len(alias_scenarios(tier)), "spacing_forms": list(SPACING_FORMS),
                   "spacing_models": "KmerAlphabet: every k-subset of [0, k+2) for k = 2, 3 in sorted and reversed order; table "
                                     "constructors: every model of k = 2 and %s of k = 3" % ("2 listed models" if tier == "quick" else "every model"),
